@@ -12,7 +12,8 @@ Record sconn := mksconn {
   c_raw : list pt;       (* ConnRef::route() *)
   c_disp : list pt;      (* ConnRef::displayRoute() *)
   c_cps : list pt;       (* routing checkpoints *)
-  c_att : list Z         (* ids of the shapes its ends are attached to (pins): their interior is not an obstacle for it *)
+  c_att : list Z;        (* ids of the shapes its ends are attached to (pins): their interior is not an obstacle for it *)
+  c_fixed : bool         (* the connector has a user-specified fixed route (ConnRef::setFixedRoute): c_raw is that route *)
 }.
 
 Definition horiz (a b : pt) : bool := Qeqb (py a) (py b).
@@ -90,18 +91,30 @@ Definition no_new_segments (c : sconn) : bool :=
 Definition still_orth (c : sconn) : bool := negb (route_orth (c_raw c)) || route_orth (c_disp c).
 Definition still_clear (boxes : list box) (c : sconn) : bool :=
   negb (route_clear boxes (c_att c) (c_raw c)) || route_clear boxes (c_att c) (c_disp c).
+(* a fixed route is returned as given ("libavoid will ... just return the specified route", connector.h): every one of its
+   segments is an immovable member of the nudging regions, so the simplified display route is the simplified given route *)
+Fixpoint pts_eqb (a b : list pt) : bool :=
+  match a, b with
+  | [], [] => true
+  | p :: a', q :: b' => pt_eqb p q && pts_eqb a' b'
+  | _, _ => false
+  end.
+Definition fixed_kept (c : sconn) : bool :=
+  negb (c_fixed c) || pts_eqb (simplify (c_disp c)) (simplify (c_raw c)).
 
 (* ---- pairwise condition *)
-(* segments of the simplified display route with: is first/last segment, contains a checkpoint of its connector *)
-Record dseg := mkdseg { d_s : pt * pt; d_end : bool; d_cp : bool }.
+(* segments of the simplified display route with: is first/last segment, contains a checkpoint of its connector, belongs to
+   a connector with a fixed route *)
+Record dseg := mkdseg { d_s : pt * pt; d_end : bool; d_cp : bool; d_fix : bool }.
 Definition dsegs (c : sconn) : list dseg :=
   let ps := pairs_of (simplify (c_disp c)) in
   let n := length ps in
   map (fun ks : nat * (pt * pt) =>
-         mkdseg (snd ks) (Nat.eqb (fst ks) 0 || Nat.eqb (S (fst ks)) n) (existsb (fun p => on_seg p (snd ks)) (c_cps c)))
+         mkdseg (snd ks) (Nat.eqb (fst ks) 0 || Nat.eqb (S (fst ks)) n) (existsb (fun p => on_seg p (snd ks)) (c_cps c))
+                (c_fixed c))
       (combine (seq 0 n) ps).
 
-Definition immovable (d : dseg) : bool := d_end d || d_cp d.
+Definition immovable (d : dseg) : bool := d_end d || d_cp d || d_fix d.
 
 Definition common_end (a b : sconn) : bool :=
   let ea := [first_pt (c_raw a); last_pt (c_raw a)] in
@@ -144,7 +157,7 @@ Definition seg_in_channel (tol : Q) (v : bool) (l u : Q) (I : Q * Q) (d : pt * p
 Definition count_in_channel (tol : Q) (v : bool) (l u : Q) (I : Q * Q) (cs : list sconn) : nat :=
   fold_left (fun n c => (n + length (filter (seg_in_channel tol v l u I) (pairs_of (simplify (c_disp c)))))%nat) cs O.
 
-(* immovable segments of the scene (first/last segments, segments through a checkpoint) that run parallel to the stretch
+(* immovable segments of the scene (first/last segments, segments through a checkpoint, segments of fixed routes) that run parallel to the stretch
    at another position bound the channel like rectangle sides do *)
 Definition seg_walls (tol : Q) (v : bool) (p : Q) (I : Q * Q) (acc : option Q * option Q) (ds : list dseg)
   : option Q * option Q :=
@@ -167,7 +180,7 @@ Definition channel_narrow (tol dist : Q) (boxes : list box) (cs : list sconn) (s
   | _ => false
   end.
 
-(* a segment that cannot be shifted: a first/last segment, a segment through a checkpoint, or a segment whose own channel
+(* a segment that cannot be shifted: a first/last segment, a segment through a checkpoint, a segment of a fixed route, or a segment whose own channel
    (walls taken over its whole extent, since it moves as a whole) is too narrow for the segments running in it - e.g. a
    segment squeezed between two rectangle sides at the same coordinate *)
 Definition stuck (tol dist : Q) (boxes : list box) (all : list sconn) (d : dseg) : bool :=
@@ -188,7 +201,7 @@ Fixpoint all_pairs {A} (f : A -> A -> bool) (l : list A) : bool :=
 
 Definition scene_ok (tol dist : Q) (boxes : list box) (cs : list sconn) : bool :=
   forallb ends_kept cs && forallb cps_kept cs && forallb no_new_segments cs &&
-  forallb still_orth cs && forallb (still_clear boxes) cs && all_pairs (pair_ok tol dist boxes cs) cs.
+  forallb still_orth cs && forallb (still_clear boxes) cs && forallb fixed_kept cs && all_pairs (pair_ok tol dist boxes cs) cs.
 
 (* ------------------------------------------------------------------ declarative meaning *)
 Definition overlapping (tol : Q) (s t : pt * pt) : Prop :=
@@ -203,6 +216,13 @@ Lemma seg_overlap_spec tol s t : seg_overlap tol s t = true <-> overlapping tol 
 Proof.
   destruct s as [a b], t as [c d]. unfold seg_overlap, overlapping, horiz, vert.
   rewrite orb_true_iff, !andb_true_iff, !Qeqb_spec, !Qleb_spec, !Qltb_spec. tauto.
+Qed.
+
+Lemma pts_eqb_spec a b : pts_eqb a b = true -> Forall2 pt_eq a b.
+Proof.
+  revert b. induction a as [|p a IH]; intros [|q b] H; cbn in H; try discriminate; constructor.
+  - apply andb_true_iff in H. apply pt_eqb_spec. tauto.
+  - apply IH. apply andb_true_iff in H. tauto.
 Qed.
 
 Lemma all_pairs_spec {A} (f : A -> A -> bool) l :
@@ -227,6 +247,7 @@ Record scene_spec (tol dist : Q) (boxes : list box) (cs : list sconn) : Prop := 
       forall s, In s (pairs_of (c_disp c)) -> px (fst s) == px (snd s) \/ py (fst s) == py (snd s);
   sp_clear : forall c, In c cs -> route_clear boxes (c_att c) (c_raw c) = true ->
       forall s B, In s (pairs_of (c_disp c)) -> In B boxes -> zmem (b_id B) (c_att c) = false -> seg_in_box B s = false;
+  sp_fixed : forall c, In c cs -> c_fixed c = true -> Forall2 pt_eq (simplify (c_disp c)) (simplify (c_raw c));
   sp_overlap : forall i j a b, (i < j)%nat -> nth_error cs i = Some a -> nth_error cs j = Some b ->
       common_end a b = false ->
       forall s t, In s (dsegs a) -> In t (dsegs b) -> overlapping tol (d_s s) (d_s t) ->
@@ -237,7 +258,7 @@ Record scene_spec (tol dist : Q) (boxes : list box) (cs : list sconn) : Prop := 
 Theorem scene_ok_sound tol dist boxes cs : scene_ok tol dist boxes cs = true -> scene_spec tol dist boxes cs.
 Proof.
   unfold scene_ok. rewrite !andb_true_iff, !forallb_forall.
-  intros [[[[[He Hc] Hn] Ho] Hcl] Hp]. split.
+  intros [[[[[[He Hc] Hn] Ho] Hcl] Hfx] Hp]. split.
   - intros c Hin. specialize (He c Hin). unfold ends_kept in He.
     apply andb_true_iff in He. rewrite !pt_eqb_spec in He. exact He.
   - intros c p Hin Hp0 Hr. specialize (Hc c Hin). unfold cps_kept in Hc. rewrite forallb_forall in Hc.
@@ -250,6 +271,8 @@ Proof.
     unfold route_clear in Hcl. rewrite forallb_forall in Hcl. specialize (Hcl s Hs).
     rewrite forallb_forall in Hcl. specialize (Hcl B HB). rewrite Hz in Hcl. cbn in Hcl.
     destruct (seg_in_box B s); [discriminate | reflexivity].
+  - intros c Hin Hf. specialize (Hfx c Hin). unfold fixed_kept in Hfx. rewrite Hf in Hfx. cbn in Hfx.
+    apply pts_eqb_spec. exact Hfx.
   - intros i j a b Hij Ha Hb Hce s t Hs Ht Hov.
     pose proof (all_pairs_spec _ _ Hp i j a b Hij Ha Hb) as H. unfold pair_ok in H. rewrite Hce in H. cbn in H.
     rewrite forallb_forall in H. specialize (H s Hs). rewrite forallb_forall in H. specialize (H t Ht).
@@ -261,12 +284,29 @@ Qed.
 (* non-vacuity: two connectors sharing a corridor that were nudged 4 apart; and the same scene with the display
    routes left on top of each other is rejected *)
 Definition ex_box := mkbox 1 20 20 60 60.
-Definition ex_c1 := mksconn 100 [mkpt 0 0; mkpt 100 0; mkpt 100 80] [mkpt 0 0; mkpt 100 0; mkpt 100 80] [] [].
+Definition ex_c1 := mksconn 100 [mkpt 0 0; mkpt 100 0; mkpt 100 80] [mkpt 0 0; mkpt 100 0; mkpt 100 80] [] [] false.
 Definition ex_c2 := mksconn 101 [mkpt 0 10; mkpt 10 10; mkpt 10 0; mkpt 90 0; mkpt 90 90]
-                            [mkpt 0 10; mkpt 10 10; mkpt 10 4; mkpt 90 4; mkpt 90 90] [] [].
+                            [mkpt 0 10; mkpt 10 10; mkpt 10 4; mkpt 90 4; mkpt 90 90] [] [] false.
 Definition ex_c2bad := mksconn 101 [mkpt 0 10; mkpt 10 10; mkpt 10 0; mkpt 90 0; mkpt 90 90]
-                            [mkpt 0 10; mkpt 10 10; mkpt 10 0; mkpt 90 0; mkpt 90 90] [] [].
+                            [mkpt 0 10; mkpt 10 10; mkpt 10 0; mkpt 90 0; mkpt 90 90] [] [] false.
 Example scene_ok_ex : scene_ok (1 # 1000000) 4 [ex_box] [ex_c1; ex_c2] = true.
 Proof. vm_compute. reflexivity. Qed.
 Example scene_bad_ex : scene_ok (1 # 1000000) 4 [ex_box] [ex_c1; ex_c2bad] = false.
 Proof. vm_compute. reflexivity. Qed.
+
+(* non-vacuity for fixed routes (seeded change C10-6, DESIGN 9.13): F has the fixed route (100,0) (100,150) (130,150)
+   (130,300); A's Z-bend middle segment was centred onto F's first segment.  Nudged 4 away: accepted.  Left on top of F
+   (F's segments were not members of any region): rejected, although F's segment is a first segment - the movable segment
+   of A is not stuck.  F itself displayed with a shifted middle segment: rejected by fixed_kept. *)
+Definition exf_F := mksconn 30 [mkpt 100 0; mkpt 100 150; mkpt 130 150; mkpt 130 300]
+                            [mkpt 100 0; mkpt 100 150; mkpt 130 150; mkpt 130 300] [] [] true.
+Definition exf_Fmoved := mksconn 30 [mkpt 100 0; mkpt 100 100; mkpt 130 100; mkpt 130 300]
+                            [mkpt 100 0; mkpt 100 150; mkpt 130 150; mkpt 130 300] [] [] true.
+Definition exf_A (x : Q) := mksconn 10 [mkpt 40 20; mkpt 100 20; mkpt 100 80; mkpt 160 80]
+                            [mkpt 40 20; mkpt x 20; mkpt x 80; mkpt 160 80] [] [] false.
+Example scene_fixed_ok : scene_ok (1 # 1000000) 4 [] [exf_A 104; exf_F] = true.
+Proof. vm_compute. reflexivity. Qed.
+Example scene_fixed_overlap_rejected : scene_ok (1 # 1000000) 4 [] [exf_A 100; exf_F] = false.
+Proof. vm_compute. reflexivity. Qed.
+Example scene_fixed_moved_rejected : scene_ok (1 # 1000000) 4 [] [exf_A 104; exf_Fmoved] = false /\ fixed_kept exf_Fmoved = false.
+Proof. vm_compute. split; reflexivity. Qed.
